@@ -39,43 +39,55 @@
 (*                                        needs overlapping create/ooc/drop*)
 (*   exist/list: 0                        needs an overlapping create/ooc  *)
 (*           (a service whose static config is still locked is not listed) *)
+(*   open (any pattern with own resources, i.e. the blackboard):           *)
+(*           ServiceInCorruptedState      needs overlapping create/ooc/drop*)
+(*           ("some underlying resources are missing" - they are, while    *)
+(*           another call creates or removes them)                         *)
 (* Without such an overlap every call must be explained by the atomic      *)
 (* object - in particular in sequential histories.                         *)
+(*                                                                         *)
+(* The configuration of a run (pattern, builder records, defaults) is not  *)
+(* part of the state: `ek` is a small key and Env(ek) the record           *)
+(* [pat, cfgs, dflt] (a constant operator: a table in the model-checking   *)
+(* instances, the `reset` record of the trace in the trace specification). *)
 (***************************************************************************)
 EXTENDS Integers, Sequences, FiniteSets, ServiceCompat
 
-CONSTANT NThreads
+CONSTANTS NThreads, Env(_)
 Threads == 0..(NThreads - 1)
 
-VARIABLES svc,    \* [ex, id, s, users]
+VARIABLES svc,    \* [ex, id, lid, c, users, ncr]
           pend,   \* per thread: the pending call
-          env,    \* [pat, cfgs, dflt] of the current run
-          gh      \* ghost/history: [next, idmap, ncr, cs]
+          ek,     \* key of the run configuration
+          gh      \* ghost: [next, seen] - abstract incarnation counter, number of distinct real ids seen
 
-avars == <<svc, pend, env, gh>>
+avars == <<svc, pend, ek, gh>>
 
-Absent(d) == [ex |-> FALSE, id |-> 0, s |-> d, users |-> {}]
-IdleRec(d) == [st |-> "idle", a |-> "-", nd |-> 0, c |-> 0, h |-> 0,
-               r |-> "-", id |-> 0, s |-> d, v |-> 0, ov |-> {}]
-Gh0 == [next |-> 1, idmap |-> <<>>, ncr |-> <<>>, cs |-> <<>>]
+\* id  = abstract incarnation number, lid = the id the real handles of this incarnation show
+\*       (0 = not yet observed), c = index of the builder record it was created from
+Absent == [ex |-> FALSE, id |-> 0, lid |-> 0, c |-> 0, users |-> {}, ncr |-> 0]
+IdleRec == [st |-> "idle", a |-> "-", nd |-> 0, c |-> 0, h |-> 0,
+            r |-> "-", id |-> 0, sc |-> 0, v |-> 0, ov |-> {}]
+Gh0 == [next |-> 1, seen |-> 0]
 
-AInit(p, cfgs, d) ==
-    /\ env = [pat |-> p, cfgs |-> cfgs, dflt |-> d]
-    /\ svc = Absent(d)
-    /\ pend = [t \in Threads |-> IdleRec(d)]
+AInit(k) ==
+    /\ ek = k
+    /\ svc = Absent
+    /\ pend = [t \in Threads |-> IdleRec]
     /\ gh = Gh0
 
-AReset(p, cfgs, d) ==
-    /\ env' = [pat |-> p, cfgs |-> cfgs, dflt |-> d]
-    /\ svc' = Absent(d)
-    /\ pend' = [t \in Threads |-> IdleRec(d)]
+AReset(k) ==
+    /\ ek' = k
+    /\ svc' = Absent
+    /\ pend' = [t \in Threads |-> IdleRec]
     /\ gh' = Gh0
 
-P == env.pat
-Req(c) == env.cfgs[c]
-NewS(c) == Created(P, Req(c), env.dflt)
+P == Env(ek).pat
+Req(c) == Env(ek).cfgs[c]
+NewS(c) == Created(P, Req(c), Env(ek).dflt)
+SvcS == NewS(svc.c)                       \* the settings of the existing service
 NodesOf(users) == {u[2] : u \in users}
-NodeFits(nd) == nd \in NodesOf(svc.users) \/ Cardinality(NodesOf(svc.users)) < svc.s.mn
+NodeFits(nd) == nd \in NodesOf(svc.users) \/ Cardinality(NodesOf(svc.users)) < SvcS.mn
 
 Creators == {"create", "ooc"}
 Mutators == {"create", "ooc", "drop"}
@@ -86,30 +98,30 @@ Call(t, a, nd, c, h) ==
     /\ pend' = [u \in Threads |->
                   IF u = t
                   THEN [st |-> "called", a |-> a, nd |-> nd, c |-> c, h |-> h, r |-> "-",
-                        id |-> 0, s |-> env.dflt, v |-> 0,
+                        id |-> 0, sc |-> 0, v |-> 0,
                         ov |-> {pend[x].a : x \in {y \in Threads \ {t} : pend[y].st # "idle"}}]
                   ELSE IF pend[u].st # "idle"
                        THEN [pend[u] EXCEPT !.ov = @ \cup {a}]
                        ELSE pend[u]]
-    /\ UNCHANGED <<svc, env, gh>>
+    /\ UNCHANGED <<svc, ek, gh>>
 
 \* ---------------------------------------------------------------- outcomes at the linearization point
-Out(r, id, s, v, nsvc, cr) == [r |-> r, id |-> id, s |-> s, v |-> v, nsvc |-> nsvc, cr |-> cr]
-Fail(r) == Out(r, 0, env.dflt, 0, svc, FALSE)
+Out(r, id, sc, v, nsvc, cr) == [r |-> r, id |-> id, sc |-> sc, v |-> v, nsvc |-> nsvc, cr |-> cr]
+Fail(r) == Out(r, 0, 0, 0, svc, FALSE)
 
-CreatedSvc(p) == [ex |-> TRUE, id |-> gh.next, s |-> NewS(p.c), users |-> {<<p.h, p.nd>>}]
+CreatedSvc(p) == [ex |-> TRUE, id |-> gh.next, lid |-> 0, c |-> p.c, users |-> {<<p.h, p.nd>>}, ncr |-> 1]
 
 CreateOutcomes(p) ==
     IF CreateCheck(P, NewS(p.c)) # "Ok" THEN {Fail(CreateCheck(P, NewS(p.c)))}
     ELSE IF svc.ex THEN {Fail("AlreadyExists")}
-    ELSE {Out("Ok", gh.next, NewS(p.c), 0, CreatedSvc(p), TRUE)}
+    ELSE {Out("Ok", gh.next, p.c, 0, CreatedSvc(p), TRUE)}
 
 \* pre = "" for open, "Open:" for open_or_create
 OpenOutcomesEx(p, pre) ==
-    LET cs == CompatSet(P, svc.s, Req(p.c)) IN
+    LET cs == CompatSet(P, SvcS, Req(p.c)) IN
     IF cs # {"Ok"} THEN {Fail(pre \o e) : e \in cs}
     ELSE IF ~NodeFits(p.nd) THEN {Fail(pre \o "ExceedsMaxNumberOfNodes")}
-    ELSE {Out("Ok", svc.id, svc.s, 0, [svc EXCEPT !.users = @ \cup {<<p.h, p.nd>>}], FALSE)}
+    ELSE {Out("Ok", svc.id, svc.c, 0, [svc EXCEPT !.users = @ \cup {<<p.h, p.nd>>}], FALSE)}
 
 OpenOutcomes(p) ==
     IF ~svc.ex THEN {Fail("DoesNotExist")} ELSE OpenOutcomesEx(p, "")
@@ -117,16 +129,15 @@ OpenOutcomes(p) ==
 OocOutcomes(p) ==
     IF svc.ex THEN OpenOutcomesEx(p, "Open:")
     ELSE IF CreateCheck(P, NewS(p.c)) # "Ok" THEN {Fail("Create:" \o CreateCheck(P, NewS(p.c)))}
-    ELSE {Out("Ok", gh.next, NewS(p.c), 0, CreatedSvc(p), TRUE)}
+    ELSE {Out("Ok", gh.next, p.c, 0, CreatedSvc(p), TRUE)}
 
 DropOutcomes(p) ==
     IF svc.ex /\ <<p.h, p.nd>> \in svc.users
     THEN LET u == svc.users \ {<<p.h, p.nd>>} IN
-         {Out("Ok", 0, env.dflt, 0,
-              IF u = {} THEN Absent(env.dflt) ELSE [svc EXCEPT !.users = u], FALSE)}
+         {Out("Ok", 0, 0, 0, IF u = {} THEN Absent ELSE [svc EXCEPT !.users = u], FALSE)}
     ELSE {}       \* dropping a handle of a service that does not exist (any more): unexplainable
 
-ExistOutcomes(p) == {Out("Ok", 0, env.dflt, IF svc.ex THEN 1 ELSE 0, svc, FALSE)}
+ExistOutcomes(p) == {Out("Ok", 0, 0, IF svc.ex THEN 1 ELSE 0, svc, FALSE)}
 
 Outcomes(t) ==
     LET p == pend[t] IN
@@ -138,13 +149,10 @@ Outcomes(t) ==
       [] OTHER -> {}
 
 LinWith(t, o) ==
-    /\ pend' = [pend EXCEPT ![t] = [@ EXCEPT !.st = "done", !.r = o.r, !.id = o.id, !.s = o.s, !.v = o.v]]
+    /\ pend' = [pend EXCEPT ![t] = [@ EXCEPT !.st = "done", !.r = o.r, !.id = o.id, !.sc = o.sc, !.v = o.v]]
     /\ svc' = o.nsvc
-    /\ gh' = IF o.cr
-             THEN [gh EXCEPT !.next = @ + 1, !.idmap = Append(@, 0), !.ncr = Append(@, 1),
-                             !.cs = Append(@, o.s)]
-             ELSE gh
-    /\ UNCHANGED env
+    /\ gh' = IF o.cr THEN [gh EXCEPT !.next = @ + 1] ELSE gh
+    /\ UNCHANGED ek
 
 Lin(t) ==
     /\ pend[t].st = "called"
@@ -156,7 +164,7 @@ Transient(a, r, v, ov) ==
        /\ r \in {"AlreadyExists", "IsBeingCreatedByAnotherInstance", "HangsInCreation"}
        /\ ov \cap Creators # {}
     \/ /\ a = "open" /\ r = "IsMarkedForDestruction" /\ "drop" \in ov
-    \/ /\ a = "open" /\ r = "HangsInCreation" /\ ov \cap Mutators # {}
+    \/ /\ a = "open" /\ r \in {"HangsInCreation", "ServiceInCorruptedState"} /\ ov \cap Mutators # {}
     \/ /\ a = "ooc"
        /\ r \in {"Open:IsMarkedForDestruction", "Open:HangsInCreation", "Open:DoesNotExist",
                  "Create:AlreadyExists", "Create:IsBeingCreatedByAnotherInstance", "SystemInFlux"}
@@ -164,28 +172,32 @@ Transient(a, r, v, ov) ==
     \/ /\ a \in {"exist", "list"} /\ r = "Ok" /\ v = 0 /\ ov \cap Creators # {}
 
 \* ---------------------------------------------------------------- returns
-IdRange == {gh.idmap[i] : i \in DOMAIN gh.idmap}
-
-\* `lid` = the incarnation id the real handle shows.  Same abstract incarnation <=> same id.
+\* `lid` = the incarnation id the real handle shows (small integers in order of first appearance
+\* in the history), `s` = the settings it shows.  Same abstract incarnation <=> same real id; the
+\* settings are exactly those the incarnation was created with.
 RetDone(t, a, r, lid, s, v, h) ==
     LET p == pend[t]
         handle == r = "Ok" /\ a \in {"create", "open", "ooc"}
     IN  /\ p.st = "done" /\ p.a = a /\ p.r = r /\ p.h = h
         /\ a \in {"exist", "list"} => p.v = v
-        /\ handle => p.s = s /\ lid > 0
-        /\ IF handle /\ gh.idmap[p.id] = 0
-           THEN /\ lid \notin IdRange
-                /\ gh' = [gh EXCEPT !.idmap[p.id] = lid]
-           ELSE /\ handle => gh.idmap[p.id] = lid
-                /\ gh' = gh
-        /\ pend' = [pend EXCEPT ![t] = IdleRec(env.dflt)]
-        /\ UNCHANGED <<svc, env>>
+        /\ IF handle
+           THEN /\ s = NewS(p.sc)
+                /\ svc.ex /\ p.id = svc.id
+                /\ IF svc.lid = 0
+                   THEN /\ lid = gh.seen + 1            \* a real id never seen before
+                        /\ svc' = [svc EXCEPT !.lid = lid]
+                        /\ gh' = [gh EXCEPT !.seen = lid]
+                   ELSE /\ lid = svc.lid
+                        /\ UNCHANGED <<svc, gh>>
+           ELSE UNCHANGED <<svc, gh>>
+        /\ pend' = [pend EXCEPT ![t] = IdleRec]
+        /\ UNCHANGED ek
 
 RetTransient(t, a, r, v) ==
     /\ pend[t].st = "called" /\ pend[t].a = a
     /\ Transient(a, r, v, pend[t].ov)
-    /\ pend' = [pend EXCEPT ![t] = IdleRec(env.dflt)]
-    /\ UNCHANGED <<svc, env, gh>>
+    /\ pend' = [pend EXCEPT ![t] = IdleRec]
+    /\ UNCHANGED <<svc, ek, gh>>
 
 Ret(t, a, r, lid, s, v, h) == RetDone(t, a, r, lid, s, v, h) \/ RetTransient(t, a, r, v)
 
@@ -200,15 +212,13 @@ Quiescent(exist, listed, files, shm) ==
 \* ---------------------------------------------------------------- named invariants
 Handle(p) == p.st = "done" /\ p.r = "Ok" /\ p.a \in {"create", "open", "ooc"}
 
-\* at most one creation succeeds per incarnation, and incarnations are distinguishable
-AtMostOneCreator ==
-    /\ \A i \in DOMAIN gh.ncr : gh.ncr[i] <= 1
-    /\ \A i, j \in DOMAIN gh.idmap : i # j /\ gh.idmap[i] # 0 => gh.idmap[i] # gh.idmap[j]
+\* at most one creation succeeds per incarnation
+AtMostOneCreator == svc.ncr <= 1 /\ (svc.ex => svc.ncr = 1)
 
-\* every handle shows exactly the settings its incarnation was created with
+\* every handle that is being returned carries exactly the settings the existing incarnation
+\* was created with (Ret compares the settings the real handle shows with them)
 OpenSeesCreatorSettings ==
-    /\ svc.ex => svc.id \in DOMAIN gh.cs /\ svc.s = gh.cs[svc.id]
-    /\ \A t \in Threads : Handle(pend[t]) => pend[t].id \in DOMAIN gh.cs /\ pend[t].s = gh.cs[pend[t].id]
+    \A t \in Threads : Handle(pend[t]) => pend[t].sc = svc.c /\ pend[t].sc \in DOMAIN Env(ek).cfgs
 
 \* a handle that is being returned belongs to the existing, complete incarnation
 NoHalfInitialised ==
@@ -222,5 +232,5 @@ LifetimeFollowsUsers == svc.ex <=> svc.users # {}
 RecreatableAfterLast ==
     ~svc.ex => \A t \in Threads :
         pend[t].st = "called" /\ pend[t].a = "create" /\ CreateCheck(P, NewS(pend[t].c)) = "Ok"
-            => \E o \in Outcomes(t) : o.r = "Ok" /\ o.nsvc.s = NewS(pend[t].c)
+            => \E o \in Outcomes(t) : o.r = "Ok" /\ o.nsvc.c = pend[t].c
 =============================================================================
